@@ -18,7 +18,7 @@ def _head():
 
 
 def one(name):
-    kind = "neutral" if name.endswith("-n") else "seeded"
+    kind = "neutral" if os.path.isdir(os.path.join(HERE, "neutral", name)) else "seeded"
     d = os.path.join(HERE, kind, name)
     meta = json.load(open(os.path.join(d, "meta.json")))
     root = make_scratch("refresh-" + name)
